@@ -229,6 +229,32 @@ let mode_blend casefile =
    with End_of_file -> ());
   close_in ic
 
+(* blendref cases: one per line `mode bpacked spacked opacity` -> `71 packed guard ok` (AseRef result, -1 when undefined;
+   guard = hsl_guard, ok = hsl_ok for modes 12..15, 1 otherwise) *)
+let mode_blendref casefile =
+  let ic = open_in casefile in
+  let ob = Buffer.create 65536 in
+  (try
+     while true do
+       let line = input_line ic in
+       match List.filter (fun w -> w <> "") (String.split_on_char ' ' line) with
+       | [m; b; s; op] ->
+           let mi = int_of_string m in
+           let bz = z_of_int (int_of_string b) and sz = z_of_int (int_of_string s) in
+           let r = match ref_blend_n (z_of_int mi) bz sz (z_of_int (int_of_string op)) with
+             | Some c -> int_of_z c | None -> -1 in
+           let (g, k) =
+             if mi >= 12 && mi <= 15 then
+               let bp = unpack (int_of_string b) and sp = unpack (int_of_string s) in
+               ((if ref_hsl_guard (z_of_int mi) bp sp then 1 else 0), (if ref_hsl_ok (z_of_int mi) bp sp then 1 else 0))
+             else (1, 1) in
+           Buffer.add_string ob (Printf.sprintf "71 %d %d %d\n" r g k)
+       | _ -> ()
+     done
+   with End_of_file -> ());
+  close_in ic;
+  print_string (Buffer.contents ob)
+
 let () =
   let args = Array.to_list Sys.argv in
   match args with
@@ -244,4 +270,5 @@ let () =
   | _ :: "sched" :: f :: _ -> mode_sched f
   | _ :: "util" :: f :: _ -> mode_util f
   | _ :: "blend" :: f :: _ -> mode_blend f
+  | _ :: "blendref" :: f :: _ -> mode_blendref f
   | _ -> prerr_endline "usage: model_driver observe|sched|util|blend ..."; exit 2
